@@ -284,3 +284,20 @@ PROPS["C16"] = {
     "assumptions": ["ticket MAC: an altered ticket never verifies (modelled by the intact flag; exercised by the tamper sweep)"],
     "not_proved": ["sessionState marshal/unmarshal round trip as a theorem", "LRU order equals container/list behaviour (tied by the capacity 1..3 histories only)"],
 }
+
+PROPS["C06"] = {
+    "modules": ["Gmsm.Props.C06"],
+    "theorems": [
+        "Props.C06.tables_ok", "Props.C06.pick_sound", "Props.C06.pick_complete", "Props.C06.policy_table",
+        "Props.C06.agreed_is_mutual", "Props.C06.gm_completes", "Props.C06.forbidden_fails", "Props.C06.no_cross_protocol",
+        "Props.C06.auto_dispatch",
+    ],
+    "gen_items": ["gmtls."],
+    "gen_obligations": ["Gen.TLS.cipherSuites / gmCipherSuites / topCipherSuites / gmDefaultSuites / version and limit constants regenerated from gmtls/cipher_suites.go, gm_support.go, common.go; tables_ok re-proved on every run"],
+    "level": "proof",
+    "claim": "A Lean model of what the two ends agree on (mode dispatch incl. the auto-switch by ClientHello version for all 65536 values, mutualVersion, ClientHello suite lists, the server's preference/supported pick over the regenerated suite tables with the certificate-kind and TLS-1.2-only filters, the client-certificate policy table) with theorems: whatever completes uses a suite both ends list and the server can serve, the protocol version is GMSSL 1.1 exactly for a GMSSL client on a GMSSL-capable server (never across protocols), the client-certificate count follows the policy table (policy_table is an iff over all policies x certificate kinds), forbidden combinations fail, a GMSSL pair with a mutual servable suite and a permitted certificate situation completes. The model's verdict (ok version suite client-certs / fail) is compared with real connections on every run: server mode {GMSSL-only, auto-switch, TLS} x client {GMSSL, gmtls TLS 1.0/1.1/1.2, crypto/tls 1.0/1.1/1.2} and gmtls clients against a crypto/tls server x suite lists (default, single, ordered, ECDHE-first, mismatching) x PreferServerCipherSuites x ClientAuth 0..4 x client certificate {none, trusted, other CA} x certificates static / through GetCertificate+GetKECertificate x tickets on/off; intrinsic oracles: both ends complete or both fail (no panic, no hang), same version, suite, exported keying material, the client sees exactly the configured server certificates, and random payloads of 0..40000 bytes (200 KiB in the thorough tier) written concurrently in both directions in fragments of 0..70000 bytes arrive intact. Independent decoding: wire captures plus KeyLogWriter output of real GMSSL connections (both suites, with and without client authentication) are decoded by the Lean implementation of GM/T 0024 — SM3 PRF and key block (Spec.TLSPRF), record layer (Model.Record, C07) — which must reproduce both Finished verify_data values from the plaintext transcript and decrypt every application record to the bytes the applications wrote.",
+    "note": "Partial: the theorems are about the negotiation model; key agreement (SM2 encryption of the pre-master secret, ECDHE/RSA for TLS), certificate verification (C08/C10) and the stdlib TLS 1.0-1.2 record protection are exercised, not modelled. For crypto/tls peers only single-suite lists are used because its preference order is its own. Independent decoding covers GMSSL; TLS 1.0-1.2 interoperability is decided by completing handshakes and exchanging data with the Go standard library.",
+    "trusted_base": ["Model.Negotiate tied by the hs op; extract/tls.go table extraction", "Spec.TLSPRF transcribes GM/T 0024 6.5 / RFC 5246 5 (validated by decoding real connections: Finished values and records)", "crypto/tls (stdlib) as the reference TLS implementation"],
+    "assumptions": [],
+    "not_proved": ["record fragmentation/reassembly of application data as a theorem (C07 has the record-layer theorems)", "key agreement correctness (both ends derive the same pre-master secret) as a theorem"],
+}
